@@ -183,6 +183,16 @@ def run_apalache(module, inv, wd, length=1, init=None, timeout=600, specdir=None
     return ok, txt
 
 
+def apalache_inductive(wd, module, inv, indinit, cov, timeout=300):
+    """Init => Inv (length 0) and IndInit /\\ Next => Inv' (length 1): the invariant holds for behaviours of any length"""
+    a, ta = run_apalache(module, inv, wd, length=0, init="Init", timeout=timeout)
+    b, tb = run_apalache(module, inv, wd, length=1, init=indinit, timeout=timeout)
+    if a is False or b is False:
+        raise MachineryError("Apalache refutes the inductive invariant %s of %s" % (inv, module))
+    cov.setdefault("apalache_obligations", {})[module + "." + inv] = \
+        "inductive: proved for histories of any length" if (a and b) else "not discharged (timeout) - TLC's bounded check stands"
+
+
 def apalache_obligations(wd, invs, cov, timeout=300):
     """thorough tier: discharge polynomial identities for ALL integers; result goes into the evidence"""
     res = {}
